@@ -40,10 +40,11 @@ DOMAIN = collections.OrderedDict([
     ("preprocessing_options", [lambda: {}, lambda: {
         "correct_tip_offset": {"method": "fit_constant_line"}}]),
     ("range_type", [lambda: "absolute", lambda: "relative cp"]),
-    ("range_x", [lambda: [0, 0], lambda: [1e-7, 0], lambda: [0, 1e-6]]),
+    ("range_x", [lambda: [0, 0], lambda: [1e-7, 0], lambda: [0, 1e-6],
+                 lambda: [5e-9, 0]]),
     ("segment", [lambda: 0, lambda: 1]),
-    ("weight_cp", [lambda: 1e-6, lambda: 0]),
-    ("gcf_k", [lambda: 1.0, lambda: 0.5]),
+    ("weight_cp", [lambda: 1e-6, lambda: 0, lambda: 1.002e-6]),
+    ("gcf_k", [lambda: 1.0, lambda: 0.5, lambda: 1.000004]),
     ("x_axis", [lambda: "tip position", lambda: "height (measured)"]),
     ("y_axis", [lambda: "force", lambda: "time"]),
     ("method", [lambda: "leastsq", lambda: "nelder"]),
